@@ -83,6 +83,60 @@ Theorem C29_clear_removes : forall c p w w',
 Proof. exact clear_removes. Qed.
 Print Assumptions C29_clear_removes.
 
+(* ---- histories: the constructor followed by any reopen(temp, fext, clear,
+   reuse, clean) / close(clear) calls on the same Filer ----
+   [good c st]: the object's .path lies where its .temp attribute says (inside
+   its own mkdtemp directory, or inside the head or alt head); [scope st] is
+   what a clear of the object may touch: at or below .path, or at or below its
+   mkdtemp directory when .temp; [env_all]: head, alt and the temp root exist
+   and none lies at or below another.
+
+   One call: the close(clear) part only touches the scope of the object AS IT
+   WAS BEFORE the call (old .path under the old .temp), the remake part only
+   touches the inside of the head / alt head / new mkdtemp directory chosen
+   by the new attributes; head, alt and temp root survive; a call that
+   returns normally leaves a good object. *)
+Theorem C29_reopen_close : forall c st h w r st' w',
+  env_all c w -> good c st -> run_hop c st h w = (r, st', w') ->
+  exists w0,
+    step_ok (scope st) w w0 /\
+    step_ok (Qof (hop_cfg c st h)) w0 w' /\
+    env_all c w' /\ (r = Ok tt -> good c st').
+Proof. exact hop_ok. Qed.
+Print Assumptions C29_reopen_close.
+
+(* Every history after a successful constructor, call by call (up to the
+   first call that raises): [hist_ok] unfolds to the two scope statements
+   above for every call in turn. *)
+Theorem C29_history : forall c w p w1 hs,
+  env_all c w -> c_tmp c <> [] -> remake c w = (Ok p, w1) -> hist_ok c (born c p) hs w1.
+Proof. exact constructor_history_ok. Qed.
+Print Assumptions C29_history.
+
+(* Non-vacuity of the history theorems: persistent filed Filer "b/x" with a
+   sibling's file next to it; reopen(temp=True, clear=True) removes only its
+   own file and moves into tmp/T0; the sibling is still there; a final
+   close(clear=True) removes tmp/T0 entirely. *)
+Example C29_history_example :
+  let s := fun n : N => [n] in
+  let c := {| c_name := [s 120]%N; c_base := [s 98]%N; c_temp := false; c_clean := false;
+              c_filed := true; c_ext := false; c_fext := s 116%N; c_head := [s 104]%N; c_alt := [s 97]%N;
+              c_tmp := [s 116; [84; 48]]%N |} in
+  let sib := ([s 104; HIO; s 98; s 115], true)%N in
+  let w := {| w_fs := [([s 104], false); ([s 97], false); ([s 116], false); ([s 104; HIO], false);
+                       ([s 104; HIO; s 98], false); sib]%N; w_log := [] |} in
+  forall p w1, remake c w = (Ok p, w1) ->
+  let obs := run_hops c (born c p) [HReopen (Some true) None true false false; HClose true] w1 in
+  map (fun o => fst (fst o)) obs = [Ok tt; Ok tt] /\
+  map (fun o => snd (fst o)) obs = [Some [s 116; [84; 48]; HIO; s 98; [120; 46; 116]]%N;
+                                    Some [s 116; [84; 48]; HIO; s 98; [120; 46; 116]]%N] /\
+  Forall (fun o => existsb (entry_eqb sib) (snd o) = true) obs /\
+  (forall o, nth_error obs 1 = Some o -> same_fs (snd o) (w_fs w) = true).
+Proof.
+  cbv zeta. intros p w1 H. vm_compute in H. inversion H; subst; clear H.
+  vm_compute. repeat split; repeat constructor. intros o Ho. inversion Ho; subst. reflexivity.
+Qed.
+
 (* Non-vacuity: head "h", alt "a", mkdtemp directory "t/T"; a temp, filed
    Filer with name "a/../x" and base "b" is accepted, name "../../x" is not. *)
 Example C29_example :
